@@ -155,56 +155,82 @@ theorem aes_validate_accepts {σ} (P : AesPrims) (hW : P.WF) (S : Src σ) (mode 
 
 /-! ## `AesReaderValid::read` -/
 
-/-- **End-of-file of a non-empty entry implies the authentication code was checked.**
-Any sequence of successful `read` calls (any buffer sizes, any inner reader — no assumption that it
-delivers the declared amount, none that it respects the `Read` contract) that is followed by an
-`Ok(0)` for a non-empty buffer has: pulled exactly `L` ciphertext bytes from the inner reader,
-compared `HMAC(hmac_key, those bytes)[0..10]` with the ten bytes read after them and found them
-equal, and returned exactly the CTR decryption of those bytes. -/
+/-- **End-of-file implies the authentication code was checked — for every declared length, 0
+included** (after the repair of K-I).  Any sequence of successful `read` calls (any buffer sizes, any
+inner reader — no assumption that it delivers the declared amount, none that it respects the `Read`
+contract) that is followed by an `Ok(0)` for a non-empty buffer has, in the state that call leaves:
+pulled exactly `L` ciphertext bytes from the inner reader, compared `HMAC(hmac_key, those bytes)[0..10]`
+with the ten bytes read after them and found them equal, and returned exactly the CTR decryption of
+those bytes.  For `L = 0` the comparison is made by the end-of-file call itself. -/
 theorem aes_eof_implies_mac {σ} (P : AesPrims) (hW : P.WF) (S : Src σ) (mode : AesMode) (L : Nat)
     (s s' : σ) (pw : Bytes) (v0 : Valid σ)
-    (hv : validate P S mode (some L) s pw = (.ok (some v0), s')) (hL0 : 0 < L) (hL : L < U64)
+    (hv : validate P S mode (some L) s pw = (.ok (some v0), s')) (hL : L < U64)
     (bufs : List Nat) (out : Bytes) (v1 : Valid σ) (hrun : drain P S bufs v0 [] = (.ok out, v1))
-    (n : Nat) (hn : 0 < n) (heof : (Valid.read P S v1 n).1 = .ok []) :
-    v1.ghostCt.length = L ∧
-    v1.ghostMac = some ((P.hmac v0.hmacKey v1.ghostCt).take AUTH_CODE_LENGTH,
-                        (P.hmac v0.hmacKey v1.ghostCt).take AUTH_CODE_LENGTH) ∧
-    cryptInPlace P v0.key CtrState.new v1.ghostCt = .ok (out, v1.ctr) := by
+    (n : Nat) (hn : 0 < n) (v2 : Valid σ) (heof : Valid.read P S v1 n = (.ok [], v2)) :
+    v2.dataRemaining = 0 ∧ v2.ghostCt.length = L ∧
+    v2.ghostMac = some ((P.hmac v0.hmacKey v2.ghostCt).take AUTH_CODE_LENGTH,
+                        (P.hmac v0.hmacKey v2.ghostCt).take AUTH_CODE_LENGTH) ∧
+    cryptInPlace P v0.key CtrState.new v2.ghostCt = .ok (out, v2.ctr) := by
   obtain ⟨L', salt, pvv, s1, hdl, _, _, _, rfl⟩ := validate_ok P S mode _ s s' pw v0 hv
   cases hdl
   have hR := drain_runInv P hW S hL bufs _ v1 [] out (RunInv.init P s' _ _ _) hrun
-  have sp := read_spec P hW S hL v1 hR.inv n
-  cases hr : Valid.read P S v1 n with
-  | mk r v2 =>
-  rw [hr] at sp heof
-  obtain ⟨bs, _, _, _, _, _, hol, hpos, _, _⟩ := sp.ok [] heof
-  have hrem : v1.dataRemaining = 0 := by
-    cases Nat.eq_zero_or_pos v1.dataRemaining with
-    | inl h => exact h
-    | inr h => have := hpos hn h; simp at hol; omega
-  have hfin := hR.inv.finAt hrem hL0
-  obtain ⟨c, hc⟩ := hR.passed hfin
-  obtain ⟨hc1, _, _⟩ := hR.inv.mac c c hc
-  have hlen := hR.inv.len
-  refine ⟨by omega, ?_, ?_⟩
-  · rw [hc, hc1, hR.hkeyEq]; rfl
+  have hR2 := hR.step P hW S hL n heof
+  rw [List.append_nil] at hR2
+  have hrem := eof_rem_zero P hW S hL hR.inv hn heof
+  have hfin := eof_finalized P hW S hL hR.inv hn heof
+  obtain ⟨c, hc⟩ := hR2.passed hfin
+  obtain ⟨hc1, _, _⟩ := hR2.inv.mac c c hc
+  have hlen := hR2.inv.len
+  refine ⟨hrem, by omega, ?_, ?_⟩
+  · rw [hc, hc1, hR2.hkeyEq]; rfl
   · rw [cryptInPlace_eq_bytes P _ hW ⟨Nat.le_refl _, rfl⟩]
-    exact hR.crypt
+    exact hR2.crypt
 
-/-- **The empty-entry edge**: with `data_length = 0` every `read` returns `Ok(0)` at its first line;
-the inner reader is not touched, the stored code is neither read nor compared. -/
-theorem aes_empty_entry_no_mac {σ} (P : AesPrims) (S : Src σ) (mode : AesMode) (s s' : σ) (pw : Bytes)
-    (v0 : Valid σ) (hv : validate P S mode (some 0) s pw = (.ok (some v0), s')) (n : Nat) :
-    Valid.read P S v0 n = (.ok [], v0) ∧ v0.ghostMac = none ∧ v0.inner = s' := by
+/-- **An entry without ciphertext** (`data_length = 0`; after the repair of K-I): a `read` that
+succeeds has read the ten bytes behind the verifier and found them equal to
+`HMAC(hmac_key, "")[0..10]`.  So a declared-empty AE-x entry must carry a valid code over the empty
+ciphertext — declaring a non-empty entry empty, or destroying the code of an empty one, is a read
+error. -/
+theorem aes_empty_entry_mac_checked {σ} (P : AesPrims) (hW : P.WF) (S : Src σ) (mode : AesMode) (s s' : σ)
+    (pw : Bytes) (v0 : Valid σ) (hv : validate P S mode (some 0) s pw = (.ok (some v0), s'))
+    (n : Nat) (out : Bytes) (v1 : Valid σ) (hr : Valid.read P S v0 n = (.ok out, v1)) :
+    out = [] ∧ ∃ code, readExact S s' AUTH_CODE_LENGTH = (.ok code, v1.inner) ∧
+      (P.hmac v0.hmacKey []).take AUTH_CODE_LENGTH = code ∧ v1.ghostMac = some (code, code) := by
   obtain ⟨L', salt, pvv, s1, hdl, _, _, _, rfl⟩ := validate_ok P S mode _ s s' pw v0 hv
   cases hdl
-  exact ⟨by unfold Valid.read; exact if_pos rfl, rfl, rfl⟩
+  have hL : 0 < U64 := by unfold U64; omega
+  have hI := initValid_inv P s' 0
+    ((P.pbkdf2 pw salt (2 * mode.keyLength + 2)).take mode.keyLength)
+    (((P.pbkdf2 pw salt (2 * mode.keyLength + 2)).drop mode.keyLength).take mode.keyLength)
+  have sp := read_spec P hW S hL _ hI n
+  rw [hr] at sp
+  obtain ⟨bs, hct, _, hb, _, _, hol, _, _, hpass⟩ := sp.ok out rfl
+  obtain ⟨hfin, code, hre, c, hm⟩ := sp.emp out rfl rfl rfl
+  have hfin : v1.finalized = true := hfin
+  have hm : v1.ghostMac = some (c, code) := hm
+  have hb : bs.length ≤ 0 := hb
+  have hbs : bs = [] := List.eq_nil_of_length_eq_zero (by omega)
+  have hct : v1.ghostCt = [] ++ bs := hct
+  rw [hbs] at hct
+  obtain ⟨c', hc'⟩ := hpass hfin rfl
+  have hc' : v1.ghostMac = some (c', c') := hc'
+  rw [hm] at hc'
+  simp only [Option.some.injEq, Prod.mk.injEq] at hc'
+  obtain ⟨h1, h2⟩ := hc'
+  obtain ⟨hcc, _, _⟩ := sp.inv.mac c code hm
+  have hcc : c = (P.hmac v1.hmacKey v1.ghostCt).take AUTH_CODE_LENGTH := hcc
+  have hk : v1.hmacKey = ((P.pbkdf2 pw salt (2 * mode.keyLength + 2)).drop mode.keyLength).take mode.keyLength := sp.hkey
+  refine ⟨List.eq_nil_of_length_eq_zero (by rw [hol, hbs]; rfl), code, hre, ?_, ?_⟩
+  · show (P.hmac (((P.pbkdf2 pw salt (2 * mode.keyLength + 2)).drop mode.keyLength).take mode.keyLength) []).take
+      AUTH_CODE_LENGTH = code
+    rw [← hk, h2, ← h1, hcc, hct]; rfl
+  · rw [hm, h1, h2]
 
 /-- **The `finalized` assertion is unreachable**: in every reachable state `finalized` implies
 `data_remaining = 0`, and then `read` returns at its first line — the code is checked at most once. -/
 theorem mac_checked_once {σ} (P : AesPrims) (S : Src σ) (L : Nat) (v : Valid σ) (hI : Inv P L v)
     (hf : v.finalized = true) (n : Nat) : Valid.read P S v n = (.ok [], v) := by
-  unfold Valid.read; rw [if_pos (hI.fin hf)]
+  unfold Valid.read; rw [if_pos (hI.fin hf), if_pos hf]
 
 /-- Every state reached from `validate` by `read` calls (successful or not) satisfies `Inv`. -/
 theorem aes_reachable_inv {σ} (P : AesPrims) (hW : P.WF) (S : Src σ) (L : Nat) (hL : L < U64)
@@ -243,7 +269,7 @@ theorem aes_right_password (P : AesPrims) (hW : P.WF) (mode : AesMode) (pw salt 
         cryptBytes P (dk.take mode.keyLength) CtrState.new (ct.take (ct.length - v1.dataRemaining)) = .ok (out, v1.ctr) ∧
         (ct.length ≤ posCount bufs →
           cryptInPlace P (dk.take mode.keyLength) CtrState.new ct = .ok (out, v1.ctr) ∧
-          ∀ n, Valid.read P listSrc v1 n = (.ok [], v1)) := by
+          ∀ n, (Valid.read P listSrc v1 n).1 = .ok []) := by
   subst hdk
   have hpl : ((P.pbkdf2 pw salt (2 * mode.keyLength + 2)).drop (2 * mode.keyLength)).length = PWD_VERIFY_LENGTH := by
     rw [List.length_drop, hW.pbkdf2_len]; show _ = 2; omega
@@ -261,32 +287,40 @@ theorem aes_right_password (P : AesPrims) (hW : P.WF) (mode : AesMode) (pw salt 
     have hz : v1.dataRemaining = 0 := by
       change v1.dataRemaining ≤ ct.length - posCount bufs at hle
       omega
-    refine ⟨?_, fun n => by unfold Valid.read; rw [if_pos hz]⟩
+    refine ⟨?_, fun n => ?_⟩
+    rotate_left
+    · obtain ⟨o, v', hr, _, _, _⟩ := hI1.step P hW hL rfl n
+      have sp := read_spec P hW listSrc hL v1 hI1.run.inv n
+      rw [hr] at sp
+      obtain ⟨bs, _, _, hb, _, _, hol, _⟩ := sp.ok o rfl
+      have hb : bs.length ≤ v1.dataRemaining := hb
+      have : o = [] := List.eq_nil_of_length_eq_zero (by omega)
+      rw [hr, this]
     rw [cryptInPlace_eq_bytes P _ hW ⟨Nat.le_refl _, rfl⟩]
     have := hI1.run.crypt
     rw [hI1.ghost, hz, Nat.sub_zero, List.take_length] at this
     exact this
 
 /-- **Tampering is detected no later than end-of-file** (AES layer): if an entry
-`salt ‖ verifier ‖ ct ‖ code` with non-empty `ct` is opened with `pw` and read to a successful
+`salt ‖ verifier ‖ ct ‖ code` (`ct` of any length, empty included) is opened with `pw` and read to a successful
 end-of-file under any schedules, then `code = HMAC(k_mac(pw, salt), ct)[0..10]`. Contrapositive: after
 any change to salt, ciphertext or code that breaks this equation (which is what HMAC is for) every
 run fails — at `validate` (wrong verifier), or with an error from `read` — before or at end-of-file. -/
 theorem aes_tamper_detected (P : AesPrims) (hW : P.WF) (mode : AesMode) (pw salt pvv ct code rest : Bytes)
     (sched bufs : List Nat) (hs : salt.length = mode.saltLength) (hp : pvv.length = PWD_VERIFY_LENGTH)
-    (hc : code.length = AUTH_CODE_LENGTH) (h0 : 0 < ct.length) (hL : ct.length < U64)
+    (hc : code.length = AUTH_CODE_LENGTH) (hL : ct.length < U64)
     (v0 : Valid ListSrc) (s' : ListSrc)
     (hv : validate P listSrc mode (some ct.length) ⟨salt ++ pvv ++ (ct ++ (code ++ rest)), sched⟩ pw
       = (.ok (some v0), s'))
     (out : Bytes) (v1 : Valid ListSrc) (hrun : drain P listSrc bufs v0 [] = (.ok out, v1))
-    (n : Nat) (hn : 0 < n) (heof : (Valid.read P listSrc v1 n).1 = .ok []) :
+    (n : Nat) (hn : 0 < n) (v2 : Valid ListSrc) (heof : Valid.read P listSrc v1 n = (.ok [], v2)) :
     (P.hmac (((P.pbkdf2 pw salt (2 * mode.keyLength + 2)).drop mode.keyLength).take mode.keyLength) ct).take
         AUTH_CODE_LENGTH = code ∧
       pvv = (P.pbkdf2 pw salt (2 * mode.keyLength + 2)).drop (2 * mode.keyLength) ∧
       cryptInPlace P ((P.pbkdf2 pw salt (2 * mode.keyLength + 2)).take mode.keyLength) CtrState.new ct
-        = .ok (out, v1.ctr) := by
-  obtain ⟨hlen, hmac, hcr⟩ := aes_eof_implies_mac P hW listSrc mode ct.length _ s' pw v0 hv h0 hL
-    bufs out v1 hrun n hn heof
+        = .ok (out, v2.ctr) := by
+  obtain ⟨hrem2, hlen, hmac, hcr⟩ := aes_eof_implies_mac P hW listSrc mode ct.length _ s' pw v0 hv hL
+    bufs out v1 hrun n hn v2 heof
   obtain ⟨L', salt', pvv', s1, hdl, hr1, hr2, hpv, rfl⟩ := validate_ok P listSrc mode _ _ s' pw v0 hv
   cases hdl
   obtain ⟨sc1, sc2, e1, e2⟩ := validate_list_reads mode.saltLength salt pvv (ct ++ (code ++ rest)) sched hs hp
@@ -297,11 +331,11 @@ theorem aes_tamper_detected (P : AesPrims) (hW : P.WF) (mode : AesMode) (pw salt
   simp only [Prod.mk.injEq, Out.ok.injEq] at hr2
   obtain ⟨rfl, rfl⟩ := hr2
   have hI1 := drain_list_ok P hW hL hc bufs _ v1 [] out (ListInv.init P ct code rest _ _ sc2) hrun
-  have hrem : v1.dataRemaining = 0 := by have := hI1.run.inv.len; omega
-  have hg : v1.ghostCt = ct := by rw [hI1.ghost, hrem, Nat.sub_zero, List.take_length]
+  have hI2 := (hI1.step_ok P hW hL hc n heof).1
+  have hg : v2.ghostCt = ct := by rw [hI2.ghost, hrem2, Nat.sub_zero, List.take_length]
   rw [hg] at hmac hcr
   refine ⟨?_, hpv, hcr⟩
-  exact (hI1.stored _ _ hmac).symm ▸ rfl
+  exact (hI2.stored _ _ hmac).symm ▸ rfl
 
 /-! ## `ZipFile::read`: any decoder on top of the AES reader (after the fix of D12) -/
 
@@ -310,13 +344,13 @@ The decoder is an arbitrary strategy (`DecStep`: any number of pulls of any size
 any returned bytes, an end-of-file as early as it likes, spurious errors, no `Read` contract towards
 its caller); the only assumption is `Decoder.Faithful`: an error of the reader below ends the
 decoder's call with an error. Nothing is assumed about the inner byte source or the CRC parameters.
-If a sequence of successful `ZipFile::read` calls is followed by `Ok(0)` for a non-empty buffer on a
-non-empty entry, the AES reader is at its end: exactly `L` ciphertext bytes were consumed and
+If a sequence of successful `ZipFile::read` calls is followed by `Ok(0)` for a non-empty buffer (on an
+entry of any declared length, 0 included), the AES reader is at its end: exactly `L` ciphertext bytes were consumed and
 `HMAC(hmac_key, those bytes)[0..10]` was compared with the stored code and found equal. -/
 theorem entry_eof_implies_mac {σ δ H} (P : AesPrims) (hW : P.WF) (S : Src σ) (D : Decoder δ)
     (hD : D.Faithful) (upd : H → Bytes → H) (fin : H → UInt32) (mode : AesMode) (L : Nat) (s s' : σ)
     (pw : Bytes) (v0 : Valid σ) (hv : validate P S mode (some L) s pw = (.ok (some v0), s'))
-    (hL0 : 0 < L) (hL : L < U64) (d0 : δ) (c0 : CrcSt H) (bufs : List Nat) (out : Bytes)
+    (hL : L < U64) (d0 : δ) (c0 : CrcSt H) (bufs : List Nat) (out : Bytes)
     (st1 st2 : EntrySt σ δ H)
     (hrun : entryDrain P S D true upd fin bufs ⟨d0, v0, c0⟩ [] = (.ok out, st1))
     (n : Nat) (hn : 0 < n) (heof : entryRead P S D true upd fin st1 n = (.ok [], st2)) :
@@ -330,8 +364,8 @@ theorem entry_eof_implies_mac {σ δ H} (P : AesPrims) (hW : P.WF) (S : Src σ) 
     (((P.pbkdf2 pw salt (2 * mode.keyLength + 2)).drop mode.keyLength).take mode.keyLength)
   have h1 := entryDrain_ok P hW S hL hQ D hD true upd fin bufs _ st1 [] out ⟨[], RunInv.init P s' _ _ _⟩ hrun
   obtain ⟨⟨acc, hR⟩, hz⟩ := entryRead_ok P hW S hL hQ D hD true upd fin st1 st2 n [] h1 heof
-  have hrem := hz rfl rfl hn
-  obtain ⟨c, hc⟩ := hR.passed (hR.inv.finAt hrem hL0)
+  obtain ⟨hrem, hfin⟩ := hz rfl rfl hn
+  obtain ⟨c, hc⟩ := hR.passed hfin
   obtain ⟨hc1, _, _⟩ := hR.inv.mac c c hc
   have hlen := hR.inv.len
   exact ⟨hrem, by omega, by rw [hc, hc1, hR.hkeyEq]; rfl⟩
@@ -341,7 +375,7 @@ reader's. -/
 theorem entry_eof_implies_mac_stored {σ H} (P : AesPrims) (hW : P.WF) (S : Src σ)
     (upd : H → Bytes → H) (fin : H → UInt32) (mode : AesMode) (L : Nat) (s s' : σ)
     (pw : Bytes) (v0 : Valid σ) (hv : validate P S mode (some L) s pw = (.ok (some v0), s'))
-    (hL0 : 0 < L) (hL : L < U64) (c0 : CrcSt H) (bufs : List Nat) (out : Bytes)
+    (hL : L < U64) (c0 : CrcSt H) (bufs : List Nat) (out : Bytes)
     (st1 st2 : EntrySt σ Unit H)
     (hrun : entryDrain P S storedDec false upd fin bufs ⟨(), v0, c0⟩ [] = (.ok out, st1))
     (n : Nat) (hn : 0 < n) (heof : entryRead P S storedDec false upd fin st1 n = (.ok [], st2)) :
@@ -356,15 +390,15 @@ theorem entry_eof_implies_mac_stored {σ H} (P : AesPrims) (hW : P.WF) (S : Src 
   have h1 := entryDrain_ok P hW S hL hQ storedDec storedDec_faithful false upd fin bufs _ st1 [] out
     ⟨[], RunInv.init P s' _ _ _⟩ hrun
   obtain ⟨⟨acc, hR⟩, _⟩ := entryRead_ok P hW S hL hQ storedDec storedDec_faithful false upd fin st1 st2 n [] h1 heof
-  have hrem := entryRead_stored_eof P hW S hL hQ storedDec storedDec_storedLike upd fin st1 st2 n hn h1 heof
-  obtain ⟨c, hc⟩ := hR.passed (hR.inv.finAt hrem hL0)
+  obtain ⟨hrem, hfin⟩ := entryRead_stored_eof P hW S hL hQ storedDec storedDec_storedLike upd fin st1 st2 n hn h1 heof
+  obtain ⟨c, hc⟩ := hR.passed hfin
   obtain ⟨hc1, _, _⟩ := hR.inv.mac c c hc
   have hlen := hR.inv.len
   exact ⟨hrem, by omega, by rw [hc, hc1, hR.hkeyEq]; rfl⟩
 
 /-- **Tampering is detected no later than end-of-file, at the level of `ZipFile::read`, for every
 inner method** (the statement that was partial before the fix of D12). Entry
-`salt ‖ verifier ‖ ct ‖ code` with non-empty `ct`; inner method either compressing with an arbitrary
+`salt ‖ verifier ‖ ct ‖ code` with `ct` of any length (empty included, after the repair of K-I); inner method either compressing with an arbitrary
 `Faithful` decoder, or `Stored` (`StoredLike` pass-through); any CRC parameters (AE-1 or AE-2), any
 schedules. If a sequence of successful reads ends with `Ok(0)` for a non-empty buffer then
 `code = HMAC(k_mac(pw, salt), ct)[0..10]` and the verifier is the derived one. So after any change of
@@ -374,7 +408,7 @@ theorem aes_tamper_detected_entry {δ H} (P : AesPrims) (hW : P.WF) (mode : AesM
     (pw salt pvv ct code rest : Bytes) (sched bufs : List Nat) (compressing : Bool) (D : Decoder δ)
     (hD : D.Faithful) (hS : compressing = false → D.StoredLike) (upd : H → Bytes → H) (fin : H → UInt32)
     (hs : salt.length = mode.saltLength) (hp : pvv.length = PWD_VERIFY_LENGTH)
-    (hc : code.length = AUTH_CODE_LENGTH) (h0 : 0 < ct.length) (hL : ct.length < U64)
+    (hc : code.length = AUTH_CODE_LENGTH) (hL : ct.length < U64)
     (v0 : Valid ListSrc) (s' : ListSrc)
     (hv : validate P listSrc mode (some ct.length) ⟨salt ++ pvv ++ (ct ++ (code ++ rest)), sched⟩ pw
       = (.ok (some v0), s'))
@@ -399,12 +433,13 @@ theorem aes_tamper_detected_entry {δ H} (P : AesPrims) (hW : P.WF) (mode : AesM
   have h1 := entryDrain_ok P hW listSrc hL hQ D hD compressing upd fin bufs _ st1 [] out
     ⟨[], ListInv.init P ct code rest _ _ sc2⟩ hrun
   obtain ⟨⟨acc, hI⟩, hz⟩ := entryRead_ok P hW listSrc hL hQ D hD compressing upd fin st1 st2 n [] h1 heof
-  have hrem : st2.aes.dataRemaining = 0 := by
+  have hrf : st2.aes.dataRemaining = 0 ∧ st2.aes.finalized = true := by
     cases compressing with
     | true => exact hz rfl rfl hn
     | false => exact entryRead_stored_eof P hW listSrc hL hQ D (hS rfl) upd fin st1 st2 n hn h1 heof
+  obtain ⟨hrem, hfin⟩ := hrf
   have hg : st2.aes.ghostCt = ct := by rw [hI.ghost, hrem, Nat.sub_zero, List.take_length]
-  obtain ⟨c, hcm⟩ := hI.run.passed (hI.run.inv.finAt hrem h0)
+  obtain ⟨c, hcm⟩ := hI.run.passed hfin
   obtain ⟨hc1, _, _⟩ := hI.run.inv.mac c c hcm
   have hst := hI.stored c c hcm
   refine ⟨?_, hpv⟩
@@ -670,69 +705,55 @@ example : (toyRun .aes128 (flipBit (toyEntry .aes128 [1, 2] (toyPlain 8) (toyPla
 example : (toyRun .aes128 ((toyEntry .aes128 [1, 2] (toyPlain 8) (toyPlain 3)).take 12) 23 [1, 2] [] [2, 2, 2]).map
     (fun r => errOf r.1) = some (some (.io .unexpectedEof)) := by decide +kernel
 
--- the empty-entry edge: a destroyed code of an empty entry goes unnoticed (nothing is compared)
+-- the empty-entry edge (after the repair of K-I): the code of an empty entry is compared too - a destroyed
+-- one is the `InvalidData` error, the honest one reads as the empty content with the code compared
 example : (toyRun .aes128 ((toyEntry .aes128 [1, 2] (toyPlain 8) []).take 10 ++ List.replicate 10 0) 20 [1, 2] [] [4, 4]).map
-    (fun r => (okVal r.1, r.2.1)) = some (some [], none) := by decide +kernel
+    (fun r => errOf r.1) = some (some (.io .invalidData)) := by decide +kernel
+example : (toyRun .aes128 (toyEntry .aes128 [1, 2] (toyPlain 8) []) 20 [1, 2] [] [4, 4]).map
+    (fun r => (okVal r.1, r.2.1.isSome, r.2.2)) = some (some [], true, 0) := by decide +kernel
 
-/-! ### K-I: the "non-empty" carve-out is decided by an attacker-writable field
+/-! ### K-I (repaired): "empty" is decided by an attacker-writable field, so it must be authenticated too
 
-The property's tamper clause, as written: any change to the salt, verifier, ciphertext or code of a
-NON-EMPTY entry makes opening or reading fail rather than return altered data.  Whether an entry is
-"empty" is decided by `data_length = compressed_size - overhead`, and the compressed size is a header
-field outside the authentication code.  So a non-empty entry can be *presented* as empty: declare the
-compressed size to be the bare overhead (equivalently: cut the ciphertext out and let any ten bytes stand
-where the code is read).  `read` then returns `Ok(0)` at its first line (`aes_empty_entry_no_mac`); nothing
-is decrypted, nothing compared; under AE-2 no CRC stands behind it.  The caller receives "this entry is
-empty" for an entry whose content was 6 (or 3000) bytes: altered data, success. -/
+Whether an entry is "empty" is decided by `data_length = compressed_size - overhead`, and the compressed
+size is a header field outside the authentication code.  Before the repair `read` returned `Ok(0)` at
+`data_remaining == 0` without ever comparing the code, so a NON-empty entry could be presented as a
+successful empty one (declared compressed size = bare overhead; AE-2: no CRC behind it).  The crate now
+verifies the code of an entry without ciphertext before reporting end-of-file
+(`aes_empty_entry_mac_checked`), and the tamper theorems above hold for every declared length. -/
 
-/-- The clause at full strength, over the model with the toy primitives: whatever bytes `payload'` and
-declared size `csize'` replace an honest non-empty entry, a read that completes returns the content. -/
-def TamperClause : Prop :=
-  ∀ (plain payload' : Bytes) (csize' : Nat) (bufs : List Nat) (out : Bytes) (m : Option (Bytes × Bytes)),
-    plain ≠ [] →
-    (toyRun .aes128 payload' csize' [1, 2] [] bufs).map (fun r => (okVal r.1, r.2.1, r.2.2)) =
-      some (some out, m, 0) →     -- every read succeeded, nothing is left to read
-    payload'.take 10 = (toyEntry .aes128 [1, 2] (toyPlain 8) plain).take 10 →   -- same salt and verifier
-    out = plain
+/-- The former K-I witness as a regression: the honest 6-byte entry reads as its content; the SAME bytes
+with the declared compressed size 20 (the overhead of AES-128) are now the `InvalidData` error — the ten
+bytes standing where the code is read are not `HMAC(k, "")[0..10]`.  Replayed on the crate by
+corpus/aes.ops (`csize-field28of3028`, `csize-field20of21`). -/
+theorem declared_empty_regression :
+    (toyRun .aes128 (toyEntry .aes128 [1, 2] (toyPlain 8) (toyPlain 6)) 20 [1, 2] [] [4, 4]).map
+      (fun r => errOf r.1) = some (some (.io .invalidData)) ∧
+    (toyRun .aes128 (toyEntry .aes128 [1, 2] (toyPlain 8) (toyPlain 6)) 26 [1, 2] [] [4, 4]).map
+      (fun r => (okVal r.1, r.2.2)) = some (some (toyPlain 6), 0) := by
+  constructor <;> decide +kernel
 
-/-- **K-I, kernel-checked**: the honest 6-byte entry reads as its content; the SAME bytes with the
-declared compressed size 20 (the overhead of AES-128) read as a successful empty entry, the code never
-compared (`ghostMac = none`).  Replayed on the crate by corpus/aes.ops (`csize-field28of3028`). -/
-theorem tamper_clause_false : ¬ TamperClause := by
-  intro h
-  have w : (toyRun .aes128 (toyEntry .aes128 [1, 2] (toyPlain 8) (toyPlain 6)) 20 [1, 2] [] [4, 4]).map
-      (fun r => (okVal r.1, r.2.1, r.2.2)) = some (some [], none, 0) := by decide +kernel
-  have := h (toyPlain 6) _ 20 [4, 4] [] none (by decide) w rfl
-  exact absurd this (by decide)
-
-example : (toyRun .aes128 (toyEntry .aes128 [1, 2] (toyPlain 8) (toyPlain 6)) 26 [1, 2] [] [4, 4]).map
-    (fun r => (okVal r.1, r.2.2)) = some (some (toyPlain 6), 0) := by decide +kernel
-
-/-- The general fact behind the witness, for EVERY primitive triple, source and password: once the
-declared compressed size is the bare overhead, an accepted verifier is all that is ever checked. -/
-theorem declared_overhead_reads_empty {σ} (P : AesPrims) (S : Src σ) (mode : AesMode) (s s' : σ) (pw : Bytes)
-    (v0 : Valid σ)
-    (hv : validate P S mode (dataLength mode (mode.saltLength + 12)) s pw = (.ok (some v0), s')) (n : Nat) :
-    Valid.read P S v0 n = (.ok [], v0) ∧ v0.ghostMac = none := by
-  have e := dataLength_exact mode 0
-  rw [Nat.add_zero] at e
-  rw [e] at hv
-  exact ⟨(aes_empty_entry_no_mac P S mode s s' pw v0 hv n).1, (aes_empty_entry_no_mac P S mode s s' pw v0 hv n).2.1⟩
-
-/-- **What holds instead** (`_partial`; the full clause is `TamperClause`, refuted above): tamper
-detection for entries whose DECLARED data length is positive — `aes_eof_implies_mac` (and
-`entry_eof_implies_mac` at the level of `ZipFile::read`) under the hypothesis `0 < L`, where `L` is
-computed from the size field, not from what the producer encrypted. -/
-theorem tamper_detected_declared_nonempty_partial {σ} (P : AesPrims) (hW : P.WF) (S : Src σ) (mode : AesMode)
+/-- **Tamper detection without the declared-nonempty restriction** (the statement that was `_partial`
+while K-I was open), AES layer, for every primitive triple, inner reader and declared length `L ≥ 0`:
+a run of successful reads that ends in `Ok(0)` for a non-empty buffer has consumed exactly `L`
+ciphertext bytes and compared `HMAC(hmac_key, those bytes)[0..10]` with the stored code, equal. -/
+theorem tamper_detected_any_declared_length {σ} (P : AesPrims) (hW : P.WF) (S : Src σ) (mode : AesMode)
     (L : Nat) (s s' : σ) (pw : Bytes) (v0 : Valid σ)
-    (hv : validate P S mode (some L) s pw = (.ok (some v0), s')) (hL0 : 0 < L) (hL : L < U64)
+    (hv : validate P S mode (some L) s pw = (.ok (some v0), s')) (hL : L < U64)
     (bufs : List Nat) (out : Bytes) (v1 : Valid σ) (hrun : drain P S bufs v0 [] = (.ok out, v1))
-    (n : Nat) (hn : 0 < n) (heof : (Valid.read P S v1 n).1 = .ok []) :
-    v1.ghostCt.length = L ∧
-    v1.ghostMac = some ((P.hmac v0.hmacKey v1.ghostCt).take AUTH_CODE_LENGTH,
-                        (P.hmac v0.hmacKey v1.ghostCt).take AUTH_CODE_LENGTH) :=
-  let h := aes_eof_implies_mac P hW S mode L s s' pw v0 hv hL0 hL bufs out v1 hrun n hn heof
-  ⟨h.1, h.2.1⟩
+    (n : Nat) (hn : 0 < n) (v2 : Valid σ) (heof : Valid.read P S v1 n = (.ok [], v2)) :
+    v2.ghostCt.length = L ∧
+    v2.ghostMac = some ((P.hmac v0.hmacKey v2.ghostCt).take AUTH_CODE_LENGTH,
+                        (P.hmac v0.hmacKey v2.ghostCt).take AUTH_CODE_LENGTH) :=
+  let h := aes_eof_implies_mac P hW S mode L s s' pw v0 hv hL bufs out v1 hrun n hn v2 heof
+  ⟨h.2.1, h.2.2.1⟩
+
+/-- Non-vacuity of the hypotheses at `L = 0`: the honest empty entry validates, and its first `read`
+with a non-empty buffer is the successful end-of-file. -/
+example : ∃ v0 s' v2, validate toy listSrc .aes128 (some 0) ⟨toyEntry .aes128 [1, 2] (toyPlain 8) [], []⟩ [1, 2]
+      = (.ok (some v0), s') ∧ drain toy listSrc [] v0 [] = (.ok [], v0) ∧
+      Valid.read toy listSrc v0 4 = (.ok [], v2) ∧ v2.ghostMac.isSome = true := by
+  refine ⟨_, _, _, rfl, rfl, rfl, ?_⟩
+  decide +kernel
 
 /-- A toy decoder whose compressed stream is complete after 3 bytes: it refills 4 bytes at a time
 and reports end-of-file once it has seen 3. State = number of bytes seen. -/
